@@ -40,8 +40,14 @@ def run(rep):
     cm = {'super.get_code': m_super_get_code, '.match': m_match, clawpkgtrie.get_package_conf_or_none: m_conf, functools.partial: m_partial, repr: m_repr,
           '.encode': m_method('encode'), '.hexdigest': m_method('hexdigest')}
     scope = dict(mod.__dict__); scope['claw_state'] = VObj(z3.Const('claw_state', M.Obj))
+    # the interpreter's flags / environment are inputs, not constants of the checker's own process: -B, -O, ... are quantified over
+    import sys as _sys, os as _os
+    for k_, v_ in list(scope.items()):
+        if v_ is _sys.flags: scope[k_] = VObj(z3.Const('sys_flags', M.Obj))
+        elif v_ is _sys: scope[k_] = VObj(z3.Const('sys_module', M.Obj))
+        elif v_ is _os.environ: scope[k_] = VObj(z3.Const('os_environ', M.Obj))
     ex = Exec(uni, scope, call_model=cm, name='get_code'); ex.fields_mode = True; ex.method_names = {'match', 'get_code', 'encode', 'hexdigest', 'get'}; ex.fstr_eval_calls = True
-    pre = (M.inst(CONF, uni.const(BeartypeConf)),)
+    pre = (M.inst(CONF, uni.const(BeartypeConf)), CONF != uni.const(None))
     outs = ex.run_function(node, St((), pre), (VObj(SELF), VObj(FULL)), {}, fobj)
     outs = [('return', s, v) for s, v in outs] + [('raise', s, v) for s, v in ex.raised]
     prover = discharge.Prover(uni.axioms())
@@ -62,9 +68,10 @@ def run(rep):
         if len(sg) != 1:
             rep.add(f'C16.get_code.post.one_compile.{tag}', 'refuted', backend='structural', where=f'{len(sg)} calls of SourceFileLoader.get_code'); continue
         during = sg[0][1]
-        hooked = isinstance(s.get('conf'), VObj) if s.get('conf') is not None else any(True for e in stores)
         r = prover.prove(list(s.pc), z3.Bool('unhooked')); unhooked_path = r.status == 'proved'
-        if unhooked_path or not stores:
+        r = prover.prove(list(s.pc), z3.Not(z3.Bool('unhooked'))); hooked_path = r.status == 'proved'
+        # a path that never asked (the blacklist of packages beartype never transforms) is an unhooked one
+        if not hooked_path:
             ok = during is None or (isinstance(during, VPy) and during.o is ORIG)
             rep.add(f'C16.get_code.post.unhooked_compiles_unpatched.{tag}', 'proved' if (ok and not stores) else 'refuted', backend='structural', where='a module that is not hooked is compiled with the cache function untouched (unmarked cache file)')
         else:
@@ -165,10 +172,61 @@ def replay_stale():
     finally:
         shutil.rmtree(td, ignore_errors=True)
 
+RUN_KINDS = [('unhooked', ''), ('hooked_pep526_on', ''), ('hooked_pep526_off', ''), ('unhooked', '-B'), ('hooked_pep526_on', '-B'), ('hooked_pep526_off', 'env')]
+
+def _history(args):
+    """one history of interpreter runs over ONE module and ONE __pycache__; each run's observation is compared with the same run on an empty cache"""
+    hist, repo = args
+    import subprocess, tempfile, shutil
+    td = tempfile.mkdtemp(prefix='c16h_', dir='/dev/shm' if os.path.isdir('/dev/shm') else None)
+    try:
+        os.makedirs(os.path.join(td, 'pkgx')); open(os.path.join(td, 'pkgx', '__init__.py'), 'w').close()
+        open(os.path.join(td, 'pkgx', 'mod.py'), 'w').write("def twice(s: int) -> int:\n    return s + s\nx: int = 'not an int'\n")
+        runpy = os.path.join(td, 'run.py')
+        open(runpy, 'w').write(f"import sys\nsys.path.insert(0, {repo!r}); sys.path.insert(0, {td!r})\nkind = sys.argv[1]\n"
+            "if kind != 'unhooked':\n    from beartype import BeartypeConf\n    from beartype.claw import beartype_package\n    beartype_package('pkgx', conf=BeartypeConf(claw_is_pep526=(kind == 'hooked_pep526_on')))\n"
+            "out = []\ntry:\n    import pkgx.mod as m\n    out.append('imported')\n    try: out.append(repr(m.twice('ab')))\n    except Exception as e: out.append(type(e).__name__)\nexcept Exception as e:\n    out.append('import-raises ' + type(e).__name__)\nprint(' '.join(out))\n")
+        def go(kind, flag):
+            env = {k: v for k, v in os.environ.items() if k != 'PYTHONDONTWRITEBYTECODE'}
+            cmd = [sys.executable] + (['-B'] if flag == '-B' else []) + [runpy, kind]
+            if flag == 'env': env['PYTHONDONTWRITEBYTECODE'] = '1'
+            return subprocess.run(cmd, capture_output=True, text=True, env=env, timeout=120).stdout.strip()
+        obs = []
+        for i in hist:
+            obs.append(go(*RUN_KINDS[i]))
+        # reference: the LAST run on an empty cache
+        shutil.rmtree(os.path.join(td, 'pkgx', '__pycache__'), ignore_errors=True)
+        ref = go(*RUN_KINDS[hist[-1]])
+        return hist, obs, ref
+    finally:
+        shutil.rmtree(td, ignore_errors=True)
+
+def history_bounded(rep, tier, seed):
+    """BOUNDED stand-in for the history part of the property: every sequence of <= N interpreter runs (unhooked / hooked under two
+    configurations, each with and without -B / PYTHONDONTWRITEBYTECODE) over one module sharing one __pycache__; the last run must observe what
+    it observes on an empty cache (labelled bounded: never counted as proved)"""
+    import itertools, multiprocessing as mp
+    n = 2 if tier == 'quick' else 3
+    hists = [h for k in range(2, n + 1) for h in itertools.product(range(len(RUN_KINDS)), repeat=k)]
+    with mp.Pool(min(16, os.cpu_count() or 4)) as pool:
+        res = pool.map(_history, [(h, REPO) for h in hists], chunksize=2)
+    bad = [(h, o, r) for h, o, r in res if o[-1] != r]
+    for h, o, r in bad[:5]:
+        names = [' '.join(x for x in RUN_KINDS[i] if x) for i in h]
+        rep.add(f"C16.history.bounded[{' ; '.join(names)}]", 'refuted', backend='bounded-runtime', bounded=True,
+                where=f'runs {names} observed {o}; the last run on an empty cache observes {r!r}',
+                replay=dict(kind='C16H', reproduced=True, detail=f'history {names}: last run {o[-1]!r} vs fresh {r!r}', tried=[dict(out=o)]),
+                replay_script=f"sys.path.insert(0, os.environ.get('VERIF_REPO', {REPO!r}))\nfrom props import c16\nh, o, r = c16._history(({tuple(h)!r}, os.environ.get('VERIF_REPO', {REPO!r})))\nprint('runs', {names!r}, 'observed', o, '; last run on an empty cache:', r)\nsys.exit(1 if o[-1] != r else 0)\n")
+    rep.add('C16.history.bounded.all_histories', 'proved' if not bad else 'refuted', backend='bounded-runtime', bounded=True,
+            where=f'{len(hists)} histories of <= {n} interpreter runs over {len(RUN_KINDS)} run kinds; {len(bad)} disagree with the empty-cache run')
+    rep.bounded.append(dict(kind='histories of interpreter runs over one module sharing one __pycache__ (hooked/unhooked x configuration x -B / PYTHONDONTWRITEBYTECODE); bounded stand-in, NOT counted as proved', max_runs=n, run_kinds=len(RUN_KINDS), histories=len(hists), failing=len(bad)))
+
 def main(tier, seed):
     rep = report.Report('C16', tier, seed, 'other', f'./check C16 --tier {tier}')
     try:
         deps = run(rep)
+        try: history_bounded(rep, tier, seed)
+        except Exception: rep.error('C16 history: ' + traceback.format_exc()[-1500:])
         reads = transformer_reads()
         need = set(reads)
         ok = ('WHOLE' in deps) or (need <= deps and 'WHOLE' not in need)
